@@ -173,12 +173,20 @@ def main():
             idx = {e[1]: i for i, e in enumerate(r.state.events) if e[0] == 'api' and e[1] in ('ReadSystemFromFile', 'os.Create')}
             return 'os.Create' not in idx or ('ReadSystemFromFile' in idx and idx['ReadSystemFromFile'] < idx['os.Create'])
         check('convert-to-raw', 'the input file is read completely before the output file is created (converting a file in place must not destroy it)', read_before_create)
+        import cli_model
+        hl = cli_model.half_loaded_rule(run, prog, sm, table, flagdefs, [c for c in want if c in paths], paths=paths)
+        for cmd, api_ in hl:
+            findings.append((cmd, 'when loading the keys file fails the command ends there (it goes on to %s)' % api_, None))
         # vacuity: every command has a succeeding path
         for cmd in want:
             run.obligation('%s twin: a succeeding path exists' % cmd, 'sat' if any(is_nil_err(r.ret) for r in paths[cmd]) else 'unsat', 'sat', 0.0)
         run.samples = [{'command': c, 'paths': len(p)} for c, p in paths.items()][:6]
         if findings:
             out = native_cli(run)
+            if hl:
+                o2 = cli_model.native_truncated_cli()
+                out['failed'] += o2['failed']
+                out['log'] += o2['log']
             if out['failed']:
                 cmd, name, r = findings[0]
                 run.violation('%s: %s -- reproduced with the built binary: %s' % (cmd, name, out['failed'][:3]), {'symbolic_findings': [(c, n) for c, n, _ in findings], 'native': out}, key='C19:%s:%s' % (cmd, name[:30]))
